@@ -154,6 +154,10 @@ func (s *Server) livesimHandlerFunc(w http.ResponseWriter, r *http.Request) {
 				}
 			}
 		}
+		if !strings.HasPrefix(segmentPart, "/") {
+			http.Error(w, "Not Found", http.StatusNotFound)
+			return
+		}
 		if cfg.Query != nil && contentTypeFromURL(cfg, a, segmentPart[1:]) == "video" {
 			if !checkQuery(cfg.Query, r.URL) {
 				log.Error("query check mismatch", "cfg", cfg.Query.raw, "url", r.URL.RawQuery)
@@ -256,6 +260,9 @@ func getMSFromDate(publishTimeValue string) (nowMS int, err error) {
 // extractPattern extracts the pattern number and return a modified segmentPart.
 func extractPattern(segmentPart string) (int, string) {
 	parts := strings.Split(segmentPart, "/")
+	if len(parts) < 2 {
+		return -1, segmentPart
+	}
 	pPart := parts[1]
 	if !strings.HasPrefix(pPart, baseURLPrefix) {
 		return -1, segmentPart
